@@ -159,6 +159,21 @@ def _transfer_paths(ctx):
             ctx.check(any(sb in dom.get(dl[0][0], ()) for sb in resp_sw), "C03.D1", "pull:delete-after-reply-check", site(b, dl[0][0]), ok="DEL is built only after the RESTORE reply was matched", bad="DEL of the source key is built without looking at the RESTORE reply")
 
 
+def _len_receiver(b, du, op):
+    """named locals the receiver of the Vec::len call that defines `op` refers to (None when op is not a len result)"""
+    pl = op.get("mv") or op.get("cp")
+    if pl is None:
+        return None
+    for d in du.defs.get(pl["l"], []):
+        if d[0] == "call" and (callee_of(d[2]) or "").endswith("::len") and d[2]["args"]:
+            return {l for l in du.slice_operand(d[2]["args"][0], deep=False).locals if b.local_name(l)}
+        if d[0] == "assign" and d[3]["rv"]["k"] == "use":
+            r = _len_receiver(b, du, d[3]["rv"]["a"])
+            if r is not None:
+                return r
+    return None
+
+
 def _scan_cursor(ctx):
     F = ctx.F
     bs = [b for b in _async_body(F, "::scan_and_migrate_keys") if b.path.startswith("migration::scan_migration")]
@@ -166,20 +181,31 @@ def _scan_cursor(ctx):
         return
     b = bs[0]
     du = DefUse(b)
-    # the comparison locked_keys.len() ? keys.len()
+    # the comparison <keys that could be locked>.len() ? <keys of the batch>.len(): the locked side is the vector that is
+    # handed to produce_entries (identified by data flow, not by name)
+    pe = calls_to(b, "produce_entries")
+    locked_locals = set()
+    for bb_, t_ in pe:
+        if t_["args"]:
+            locked_locals |= {l for l in du.slice_operand(t_["args"][0], deep=False).locals if b.local_name(l)}
     cmps = []
     for bb, i, s in binop_sites(b, ("Lt", "Le", "Gt", "Ge", "Eq", "Ne")):
         sa = du.slice_operand(s["rv"]["a"]); sb = du.slice_operand(s["rv"]["b"])
         if sa.has_call("Vec::len") and sb.has_call("Vec::len"):
-            an = {b.local_name(l) for l in sa.locals}; bn = {b.local_name(l) for l in sb.locals}
-            if ("locked_keys" in an and "keys" in bn) or ("keys" in an and "locked_keys" in bn):
-                cmps.append((bb, i, s, "a" if "locked_keys" in an else "b"))
+            ra = _len_receiver(b, du, s["rv"]["a"]); rb = _len_receiver(b, du, s["rv"]["b"])
+            if ra is None or rb is None:
+                continue
+            la = bool(ra & locked_locals)
+            lb = bool(rb & locked_locals)
+            if la != lb:
+                cmps.append((bb, i, s, "a" if la else "b"))
     oks = []
     for bb, i, s in b.assigns():
         rv = s["rv"]
         if rv["k"] == "agg" and rv["ak"] == "tuple" and len(rv["ops"]) == 3:
             sl = du.slice_operand(rv["ops"][0])
-            src = "index" if "index" in sl.captures and not sl.has_field("ScanResponse", "next_index") else "next_index" if sl.has_field("ScanResponse", "next_index") or any(b.local_name(l) == "next_index" for l in sl.locals) else "?"
+            nxt = sl.has_field("ScanResponse", "next_index")
+            src = "next_index" if nxt else "index" if (sl.captures or sl.params) else "?"
             oks.append((bb, src))
     if not cmps:
         ctx.violation("C03.D1", "scan-cursor:retry-test-missing", site(b), "scan_and_migrate_keys never compares the number of locked keys with the batch size: keys that could not be locked are skipped for good")
